@@ -243,7 +243,6 @@ theorem netbios_encode_eq (data : Bytes) (off : Int) :
 
 theorem add_int (a b : Int) : add a b = a + b := rfl
 
-theorem ok_bind {α β : Type} (a : α) (f : α → Py β) : (Except.ok a >>= f) = f a := rfl
 
 theorem getItem_ok (d : Bytes) (idx : Int) (i : Nat) (hi : idx = (i : Int)) (h : i < d.length) :
     getItem d idx = .ok ((d[i].toNat : Nat) : Int) := by
